@@ -66,6 +66,7 @@ EdgeSeqs(t)  == IF t.deep
 Rev(s)      == [i \in DOMAIN s |-> s[Len(s) + 1 - i]]
 Rot(s)      == LET h == Len(s) \div 2 IN SubSeq(s, h + 1, Len(s)) \o SubSeq(s, 1, h)
 Big(t)         == ~t.deep /\ Len(t.decl) > FullPermsUpTo
+EvenFirst(s)   == IF Len(s) < 2 \/ Index(SetToSeq(Range(s)), s[1]) <= Index(SetToSeq(Range(s)), s[Len(s)]) THEN s ELSE Rev(s)   \* one of {s, Rev(s)}
 OrdersOf(t, s) == IF t.deep THEN {s} ELSE IF Big(t) THEN (IF Cyclic(EdgeSet(s)) THEN {s} ELSE {s, Rev(s)}) ELSE {s, Rev(s), Rot(s)}
 
 \* ------------------------------------------------------------------ links of an edge sequence, by style
@@ -87,13 +88,15 @@ LinksOf(t, es, style) == IF style = 4 THEN Merged(t, es) ELSE [k \in DOMAIN es |
 Styles(t, es) == IF t.deep THEN (IF Len(es) >= 3 THEN {0} ELSE {0, 3})
                  ELSE IF Len(t.decl) <= AllKindsUpTo THEN {0, 1, 2, 3, 4}
                  ELSE IF Len(t.decl) <= FullPermsUpTo THEN {0, 3, 4}
-                 ELSE IF Cyclic(EdgeSet(es)) THEN {1} ELSE {1, 4}
+                 ELSE IF Cyclic(EdgeSet(es)) THEN {1} ELSE (IF es = EvenFirst(es) THEN {1, 4} ELSE {1})
 \* the largest families are thinned: a rejected link set of a big flat template is tried with one kind vector only (the
 \* kinds cannot matter for the rejection), deep link sets of three links with equal kinds of s and o and three orders
 AllGroups(t)   == \A i \in DOMAIN t.decl : t.decl[i].kind = G
 EqualKinds(t)  == \A i, j \in DOMAIN t.decl : (t.decl[i].cparams = << >> /\ t.decl[j].cparams = << >> /\ t.decl[i].dest # <<"m">> /\ t.decl[j].dest # <<"m">>) => t.decl[i].kind = t.decl[j].kind
+Monotone(t, es) == \/ \A i \in 1..(Len(es) - 1) : Index(CandSeq(t), es[i]) < Index(CandSeq(t), es[i + 1])
+                   \/ \A i \in 1..(Len(es) - 1) : Index(CandSeq(t), es[i]) > Index(CandSeq(t), es[i + 1])
 Thinned(t, es) == /\ (Big(t) /\ Cyclic(EdgeSet(es))) => AllGroups(t)
-                  /\ (t.deep /\ Len(es) >= 3) => EqualKinds(t)
+                  /\ (t.deep /\ Len(es) >= 3) => (EqualKinds(t) /\ Monotone(t, es))
 
 \* a plain argument can be the target of one link only (the second link_arguments call finds no action, :145-148)
 PlainOnce(t, es, style) == style = 4 \/ \A i, j \in DOMAIN es : (i # j /\ es[i][2] \in t.plains) => es[i][2] # es[j][2]
